@@ -4,6 +4,7 @@
 (* events on one object:                                                   *)
 (*  Construct [obs, clean, trefmode, trefin, unit, hascov, out]            *)
 (*  Copy [out]      Slice [sel, out]      Ivar [cov, ivar] (lattice)       *)
+(*  RoundTrip [out]  (extension X05: through an astropy TimeSeries file)   *)
 (* out = [rows: <<[t, rvid, errid]>>, tref, trefnone, unit, errunit,       *)
 (*        cov: matrix of <<rowid, colid>> (hascov only), ivnum, ivden,     *)
 (*        ernum, erden (1-D errors: ivar and err as exact rationals)]      *)
@@ -50,6 +51,16 @@ OnSlice(e) ==
           IF cur.hascov /\ ~CovPaired(e.out.rows, e.out.cov) THEN "C15.CovarianceRowAndColumn" ELSE "",
           IF e.out.unit = cur.unit /\ e.out.errunit = cur.errunit THEN "" ELSE "C15.UnitsAsSupplied">>)
 
+\* extension X05 (not a listed property): to_timeseries -> TimeSeries written to HDF5 -> from_timeseries gives the same object
+OnRoundTrip(e) ==
+  First(<<IF e.raised THEN "X05.TimeSeriesRoundTripRaises" ELSE "",
+          IF SameObservations(cur.rows, e.out.rows) THEN "" ELSE "X05.TimeSeriesKeepsTheObservations",
+          IF e.out.unit = cur.unit /\ e.out.errunit = cur.errunit THEN "" ELSE "X05.TimeSeriesKeepsUnits",
+          \* a DISABLED reference epoch (t_ref=False) cannot be told from "not given" in the TimeSeries meta (both None): the
+          \* object that comes back has the default epoch (its earliest time) - behaviour of the current code, allowed here
+          IF cur.trefnone THEN (IF e.out.trefnone \/ (e.out.rows # <<>> /\ e.out.tref = MinTime(e.out.rows)) THEN "" ELSE "X05.TimeSeriesKeepsTRef")
+          ELSE IF ~e.out.trefnone /\ e.out.tref = cur.tref THEN "" ELSE "X05.TimeSeriesKeepsTRef">>)
+
 \* lattice covariance: ivar * cov = identity (integers)
 OnIvar(e) ==
   LET n == Len(e.cov)
@@ -68,6 +79,7 @@ Step ==
               ELSE IF e.ev = "Copy" THEN OnCopy(e)
               ELSE IF e.ev = "Slice" THEN OnSlice(e)
               ELSE IF e.ev = "Ivar" THEN OnIvar(e)
+              ELSE IF e.ev = "RoundTrip" THEN OnRoundTrip(e)
               ELSE "unknown event"
      IN /\ ok' = (ok /\ c = "")
         /\ clause' = c
